@@ -4,7 +4,7 @@ EXTENDS Generators, Json
 NegFour == 0 - 4        \* cfg files cannot hold negative literals
 
 \* constant-level laws, evaluated once
-LawsOnce == (mode = "decide" /\ bl = 0 /\ il = 0) => RangeExact /\ LinspaceEnds
+LawsOnce == (mode = "decide" /\ bl = 0 /\ il = 0) => RangeExact /\ LinspaceEnds /\ CollectAllocOK
 
 Steps == {-3, -2, -1, 1, 2, 3}
 EmitGen ==
@@ -14,9 +14,9 @@ EmitGen ==
       /\ \A a \in RMin..RMax, b \in RMin..RMax, n \in 0..MaxN :
             PrintT(<<"REPLAY", ToJson([op |-> "linspace", a |-> a, b |-> b, n |-> n,
                                        want |-> [i \in 1..n |-> EQ(DefLinspace(a, b, n)[i])]])>>)
-      /\ \A n \in 0..MaxN, e \in 0..MaxN :          \* e = position of the first error (0 = none), a second one later
+      /\ \A n \in 0..MaxN, e \in 0..MaxN, sk \in Sources :   \* e = position of the first error (0 = none), a second one later
             (e <= n) =>
-            PrintT(<<"REPLAY", ToJson([op |-> "collect", n |-> n,
+            PrintT(<<"REPLAY", ToJson([op |-> "collect", n |-> n, src |-> sk, hint |-> Hint(sk, n),
                       items |-> [i \in 1..n |-> IF i = e \/ (e > 0 /\ i = e + 2) THEN -1 ELSE 10 + i],
                       first_error |-> FirstError([i \in 1..n |-> IF i = e \/ (e > 0 /\ i = e + 2) THEN -1 ELSE 10 + i])])>>)
 
